@@ -258,6 +258,7 @@ class Report:
         self.prop, self.tier, self.seed = prop, tier, seed
         self.t0 = time.time()
         self.violations = []       # (replay_path, no_failing_input)
+        self.printed = set()       # replay paths whose VIOLATION line is out
         self.known_hits = []
         self.cov = {"evaluations": 0, "distinct_nontrivial": 0, "samples": [], "rule": "",
                     "traces_validated_against_impl": 0, "distribution": {}}
@@ -296,6 +297,13 @@ class Report:
         with open(path, "w") as f:
             json.dump(body, f, indent=1)
         self.violations.append((path, no_input))
+        # said at once (a check that is cut off by somebody's time limit has then said what it had found), and enough is enough:
+        # on a tree that is broken through and through (every scenario hangs until its time-out) the check ends after a handful
+        if path not in self.printed:
+            self.printed.add(path)
+            print(f"VIOLATION property={self.prop} replay={path}" + (" no-failing-input-found" if no_input else ""), flush=True)
+        if len(self.printed) >= 10 or (len(self.printed) >= 5 and any(not ni for _, ni in self.violations)):
+            raise StopCheck()
 
     def finish(self, proof):
         """proof: dict(obligations, discharged, checker_cmd, axioms, theorems)"""
@@ -314,14 +322,17 @@ class Report:
             json.dump(ev, f, indent=1)
         for sig, what in self.known_hits:
             print(f"KNOWN-FINDING: property={self.prop} {what}")
-        seen = set()
         for path, no_input in self.violations:
-            if path in seen:
+            if path in self.printed:
                 continue
-            seen.add(path)
+            self.printed.add(path)
             print(f"VIOLATION property={self.prop} replay={path}" + (" no-failing-input-found" if no_input else ""))
         sys.stdout.flush()
         return 1 if self.violations else 0
+
+
+class StopCheck(Exception):
+    """enough violations have been reported: the runner is abandoned, the evidence is written"""
 
 
 def proof_stage(rep, prop, thorough=False):
